@@ -67,28 +67,28 @@ type workItem struct {
 }
 
 type pathState struct {
-	prefix  []dec
-	depth   int
-	trail   []dec
-	known   map[uint64][]knownLit // literals asserted on this path
-	model   model // satisfies the current path condition (nil if unknown)
-	vars    []VarInfo
-	varTerm []*term
-	inputs  []inputRec // intrinsic calls in order
-	obs     []observation
-	reach   []string
-	steps   int64
-	pcStr   []string
-	nDecide int // decisions that needed the solver on this path
-	em      smtEmitter
+	prefix    []dec
+	depth     int
+	trail     []dec
+	known     map[uint64][]knownLit // literals asserted on this path
+	model     model                 // satisfies the current path condition (nil if unknown)
+	vars      []VarInfo
+	varTerm   []*term
+	inputs    []inputRec // intrinsic calls in order
+	obs       []observation
+	reach     []string
+	steps     int64
+	pcStr     []string
+	nDecide   int // decisions that needed the solver on this path
+	em        smtEmitter
 	dom       map[string]*byteSet
 	entangled map[string]bool
 	fastPath  int64 // decisions settled by the byte-domain fast path
 	asserts   int64
 	trackPoss bool
 	possDiff  bool
-	syncMaps map[*value]*omap
-	ufCalls  []ufCall
+	syncMaps  map[*value]*omap
+	ufCalls   []ufCall
 	// obligations
 	oblChecked    int // assertion / safety sites whose bad side was queried
 	oblDischarged int // ... and came back unsat
